@@ -395,6 +395,14 @@ def binary_tree(rng, pools, n, moves, p_unary, root_unary):
     gen.spice(rng, spec, ['cat-apostrophe', 'pos-apostrophe', 'cat-keyword',
                           'cat-punct-char', 'pos-punct-char', 'word-unispace',
                           'word-unicode', 'word-keyword', 'word-percent'])
+    if rng.random() < 0.3:
+        # nodes as tree binarization leaves them: they are part of the input
+        # tree and have to be rebuilt like any other node
+        for n_ in gen.walk(spec['root']):
+            if 'c' in n_ and n_ is not spec['root'] and len(n_['c']) == 2 \
+                    and rng.random() < 0.4:
+                n_['l'] = '@' + rng.choice(['S', 'NP', 'VP'])
+        gen.ATNODES[0] += 1
     gen.assign_heads(rng, spec)
     return spec
 
